@@ -988,10 +988,19 @@ def _check_marginals(fc, tag):
     return []
 
 
-def _check_scaling(fc, table, ops, start, end):
-    """ops = [['scale', v] | ['date', 'YYYY-mm-dd HH:MM:SS']]: after each call data == original * that call's factor"""
+def _check_scaling(fc, table, ops, start, end, boxes=None):
+    """ops = [['scale', v] | ['date', 'YYYY-mm-dd HH:MM:SS']]: after each call data == original * that call's factor - and so are
+    the rates get_rates() looks up (boxes = (cell boxes, magnitude boxes, flags): a few cell centres are probed after every call)"""
     bad = []
     orig = numpy.array(table, dtype=float)
+    probes = []
+    if boxes is not None:
+        cell_boxes, mag_boxes, flags = boxes
+        live = [c for c in range(len(cell_boxes)) if flags is None or flags[c]]
+        for c in live[:2] + live[-1:]:
+            x0, x1, y0, y1 = cell_boxes[c]
+            for b in sorted({0, len(mag_boxes) - 1}):
+                probes.append(((x0 + x1) / 2, (y0 + y1) / 2, mag_boxes[b][0], c, b))
     for k, op in enumerate(ops or []):
         if op[0] == 'scale':
             factor = float(op[1])
@@ -1018,6 +1027,13 @@ def _check_scaling(fc, table, ops, start, end):
             bad.append('after call %d of %r, %s: data = original x %r, required original x %r (last factor, not cumulative)'
                        % (k + 1, ops, what, ratio, factor))
         bad += _check_marginals(fc, 'after ' + what)
+        for (x, y, mg, c, b) in probes:
+            o2 = call(fc.get_rates, numpy.array([x]), numpy.array([y]), numpy.array([mg]))
+            want = float(orig[c][b]) * factor
+            if o2[0] == 'raise' or numpy.asarray(o2[1]).shape != (1,) or abs(float(numpy.asarray(o2[1])[0]) - want) > tol * abs(want) + 1e-300:
+                bad.append('after %s: get_rates at the centre of cell %d, magnitude bin %d = %r, required stored rate x factor = %r'
+                           % (what, c, b, _exc(o2) if o2[0] == 'raise' else numpy.asarray(o2[1]).tolist(), want))
+                break
         if len(bad) >= 3:
             break
     return bad
@@ -1140,7 +1156,7 @@ def _forecast_ascii(lon0, lat0, dh, cells, mags, dmag, flags=None, rate_seed=0, 
             if o[0] == 'raise' or not _close(o[1], total, 1e-11):
                 bad.append('event_count = %r, the rate column sums to %r' % (o[1], total))
         bad += _check_marginals(fc, 'loaded forecast')
-        bad += _check_scaling(fc, table, ops, t0, t1)
+        bad += _check_scaling(fc, table, ops, t0, t1, boxes=(cell_boxes, mag_boxes, flags))
     return bad[:MAXBAD + 3]
 
 
@@ -1195,5 +1211,5 @@ def _forecast_quadtree(quadkeys, mags, dmag, rate_seed=0, layout='ascii', ops=No
         if o[0] == 'raise' or not _close(o[1], total, 1e-11):
             bad.append('event_count = %r, the rate column sums to %r' % (o[1], total))
         bad += _check_marginals(fc, 'loaded forecast')
-        bad += _check_scaling(fc, table, ops, t0, t1)
+        bad += _check_scaling(fc, table, ops, t0, t1, boxes=(cell_boxes, mag_boxes, None))
     return bad[:MAXBAD + 3]
